@@ -147,13 +147,28 @@ Theorem C07_all_default_in_list_refuted :
 Proof. exact all_default_in_list_refuted. Qed.
 Print Assumptions C07_all_default_in_list_refuted.
 
-Theorem C07_packed_blank_refuted :
-  row_dom r2_ty r2_v [[115%N]] = false
-  /\ unparse_row r2_ty r2_v [[115%N]] [] = Ok r2_cells
-  /\ parse_row {| rm_ty := r2_ty; rm_ctx := None |} r2_cells = Ok r2_back
+(* finding packed-model-blank-value-under-nonblank-default: DECIDED by the probed constant join_keeps_blank_last
+   (does join_from_lists keep an empty last element by a trailing separator?).  On the repaired tree the instance
+   is inside the proved domain (C07_row_roundtrip covers it), is written a;;| and comes back. *)
+Theorem C07_packed_blank_decided :
+  if join_keeps_blank_last
+  then row_dom r2_ty r2_v [[115%N]] = true
+       /\ unparse_row r2_ty r2_v [[115%N]] [] = Ok r2_cells_kept
+       /\ parse_row {| rm_ty := r2_ty; rm_ctx := None |} r2_cells_kept = Ok r2_v
+  else row_dom r2_ty r2_v [[115%N]] = false
+       /\ unparse_row r2_ty r2_v [[115%N]] [] = Ok r2_cells
+       /\ parse_row {| rm_ty := r2_ty; rm_ctx := None |} r2_cells = Ok r2_back
+       /\ r2_back <> r2_v.
+Proof. exact packed_blank_decided. Qed.
+Print Assumptions C07_packed_blank_decided.
+
+(* the reader is the same on either tree *)
+Theorem C07_packed_blank_reader :
+  parse_row {| rm_ty := r2_ty; rm_ctx := None |} r2_cells = Ok r2_back
+  /\ parse_row {| rm_ty := r2_ty; rm_ctx := None |} r2_cells_kept = Ok r2_v
   /\ r2_back <> r2_v.
-Proof. exact packed_blank_refuted. Qed.
-Print Assumptions C07_packed_blank_refuted.
+Proof. exact packed_blank_reader. Qed.
+Print Assumptions C07_packed_blank_reader.
 
 Theorem C07_packing_limit_refuted :
   row_dom r4_ty r4_v [[108%N]] = false
